@@ -6,8 +6,11 @@ import numpy as np
 from .bpgen import insertion_history, target_blueprint
 
 ID = "C01"
-ALLOWED_AXIOMS = []
-PROPS_FILES = ["C01", "C01n"]
+# the structural theorems are axiom-free; Props/FloatGap.v (binary64 vs exact counts, Flocq) uses the standard axioms of
+# the real numbers and, through Flocq, excluded middle
+ALLOWED_AXIOMS = ["ClassicalDedekindReals.sig_forall_dec", "ClassicalDedekindReals.sig_not_dec",
+                  "FunctionalExtensionality.functional_extensionality_dep", "Classical_Prop.classic"]
+PROPS_FILES = ["C01", "C01n", "FloatGap"]
 T_GEN = ["OutputGuardsGen.v"]          # carries forge_min_points, read from blueprint._subelementBuilder
 T_FILES = ["Generated/OutputGuardsGen", "Numeric/ForgeConstants", "Props/C01n"]
 
